@@ -631,7 +631,59 @@ fn backend_headers(out: &mut Outcome) -> Result<Vec<(String, String)>, Machinery
             Err((msg, loc)) => bad.push((hex(case), format!("the server app panicked: {msg} ({})", short_loc(&loc)))),
         }
     }
-    out.reports.push(json!({"cell": "c06-backend-headers", "cases": cases.len(), "exhaustive_within_bound": true}));
+    // a peer that keeps the server's socket full: `per_frame` well-formed frames on the
+    // acknowledgement channel before every server frame, while a well-behaved client connects
+    for per_frame in [64usize, 400] {
+        let r = guarded(|| -> Result<(), String> {
+            let mut server = App::new();
+            server.init_resource::<Time>().add_plugins((
+                RepliconPlugins.set(ServerPlugin { tick_policy: TickPolicy::EveryFrame, ..Default::default() }),
+                RepliconExampleBackendPlugins,
+            ));
+            server.finish();
+            server.cleanup();
+            let socket = ExampleServer::new(0).map_err(|e| format!("socket: {e}"))?;
+            let port = socket.local_addr().map_err(|e| format!("socket: {e}"))?.port();
+            server.insert_resource(socket);
+            let mut raw = std::net::TcpStream::connect((std::net::Ipv4Addr::LOCALHOST, port)).map_err(|e| format!("socket: {e}"))?;
+            raw.set_nodelay(true).ok();
+            let frame: Vec<u8> = [0u8, 2, 0, 0x10, 0x00].repeat(per_frame);
+            for _ in 0..3 {
+                let _ = raw.write_all(&frame);
+                server.update();
+            }
+            let mut client = App::new();
+            client.init_resource::<Time>().add_plugins((RepliconPlugins, RepliconExampleBackendPlugins));
+            client.finish();
+            client.cleanup();
+            client.insert_resource(ExampleClient::new(port).map_err(|e| format!("socket: {e}"))?);
+            for _ in 0..200 {
+                let _ = raw.write_all(&frame);
+                server.update();
+                client.update();
+                let n = {
+                    let w = server.world_mut();
+                    let mut q = w.query_filtered::<(), With<AuthorizedClient>>();
+                    q.iter(w).count()
+                };
+                if n >= 1 {
+                    return Ok(());
+                }
+                std::thread::sleep(std::time::Duration::from_micros(500));
+            }
+            Err(format!("while another peer wrote {per_frame} well-formed acknowledgement frames before every server frame, a well-behaved client was not authorized within 200 frames"))
+        });
+        out.evaluations += 1;
+        out.nontrivial += 1;
+        out.transitions += 200;
+        match r {
+            Ok(Ok(())) => {}
+            Ok(Err(e)) if e.starts_with("socket") => return Err(MachineryError(format!("loopback sockets unavailable: {e}"))),
+            Ok(Err(e)) => bad.push((format!("flood:{per_frame}"), e)),
+            Err((msg, loc)) => bad.push((format!("flood:{per_frame}"), format!("the server app panicked: {msg} ({})", short_loc(&loc)))),
+        }
+    }
+    out.reports.push(json!({"cell": "c06-backend-headers", "cases": cases.len(), "flooding_peers": 2, "exhaustive_within_bound": true}));
     eprintln!("  C06: {} raw header cases against the example backend's server socket", cases.len());
     Ok(bad)
 }
